@@ -26,6 +26,11 @@ def evaluate(out, obs, ncases, nprogs, st, desc):
     out.cov["trace_states_dynamic"] = tstates
     c01.decide(out, obs, ("C06",), ncases, nprogs, st, "static: all paths of every built instruction stream (Balance); dynamic: every executed step (TraceVM); " + desc)
     out.cov["exhaustive"] = True
+    # a run that VM.tla does not explain for another reason than the stack discipline (a value, a jump, a host call) is DRIFT between
+    # the instruction-level model and the code: measured and shown, never an alarm of this property (C01 decides values by Eval)
+    trace = [fl for fl in tf if fl.get("prop") == "TRACE"]
+    out.cov["model_drift"] = len(trace)
+    out.cov["model_drift_examples"] = [{"src": fl.get("src"), "store": fl.get("store"), "at": fl.get("at"), "instruction": fl.get("ins"), "known": fl.get("kf")} for fl in trace[:5]]
     failing = {fl["line"] for fl in bf + tf if fl.get("prop") == "C06"}
     origin = {}
     if failing:
